@@ -142,18 +142,24 @@ impl<'a> ResponseData for &'a [u8] {
         if !self.is_ascii() {
             Err(ErrorCode::ExecutionError.into())
         } else {
-            let mut first = true;
             formatter.push_byte(b'"')?;
-            for ss in self.split(|x| *x == b'"') {
-                if !first {
-                    formatter.push_str(br#""""#)?;
-                }
-                formatter.push_ascii(ss)?;
-                first = false;
-            }
+            push_quoted(formatter, self)?;
             formatter.push_byte(b'"')
         }
     }
+}
+
+/// Push the inside of a string response, doubling any embedded `"`
+fn push_quoted(formatter: &mut dyn Formatter, s: &[u8]) -> Result<()> {
+    let mut first = true;
+    for ss in s.split(|x| *x == b'"') {
+        if !first {
+            formatter.push_str(br#""""#)?;
+        }
+        formatter.push_str(ss)?;
+        first = false;
+    }
+    Ok(())
 }
 
 impl ResponseData for Error {
@@ -163,9 +169,9 @@ impl ResponseData for Error {
 
         if let Some(ext) = self.get_extended() {
             formatter.push_byte(b'"')?;
-            formatter.push_str(self.get_message())?;
+            push_quoted(formatter, self.get_message())?;
             formatter.push_byte(b';')?;
-            formatter.push_str(ext)?;
+            push_quoted(formatter, ext)?;
             formatter.push_byte(b'"')
         } else {
             self.get_message().format_response_data(formatter)
